@@ -1013,7 +1013,7 @@ func finishRegistryScan(m *fw.Merged) {
 	total := 0
 	fset := token.NewFileSet()
 	for _, pkg := range []string{"common", "phase0", "altair", "bellatrix", "capella", "deneb", "electra"} {
-		files, _ := filepath.Glob(filepath.Join("/repo/eth2/beacon", pkg, "*.go"))
+		files, _ := filepath.Glob(filepath.Join(fw.RepoDir, "eth2/beacon", pkg, "*.go"))
 		seen := map[string]bool{}
 		for _, f := range files {
 			if strings.HasSuffix(f, "_test.go") {
